@@ -45,7 +45,12 @@ func (g *Gen) genChangeMappingHistory() {
 		k2, a2 = sg.mkind, alpha
 	}
 	var m2 = sg.newMappingHandle(2, k2, a2, false)
-	if r.Bool(15) { // the very same mapping
+	mh2 := 2
+	if r.Bool(10) {
+		// the sketch's OWN mapping object as the new mapping (a pure change of unit when the scale is not 1)
+		mh2 = 1
+		m2 = sg.m
+	} else if r.Bool(15) { // the very same mapping
 		pb := sg.m.ToProto()
 		sg.line("M 2 %s %s %s %s %s %s", sg.mkind, hexF(pb.Gamma), hexF(pb.IndexOffset), hexF(sg.m.MinIndexableValue()), hexF(sg.m.MaxIndexableValue()), hexF(sg.m.RelativeAccuracy()))
 		m2 = sg.m
@@ -74,13 +79,13 @@ func (g *Gen) genChangeMappingHistory() {
 				inLow := sg.m.LowerBound(idx) * scale
 				inHigh := sg.m.LowerBound(idx+1) * scale
 				out := m2.Index(inLow)
-				emit(fmt.Sprintf("mi 2 %s %d", hexF(inLow), out))
+				emit(fmt.Sprintf("mi %d %s %d", mh2, hexF(inLow), out))
 				for steps := 0; steps < 100000; steps++ {
-					emit(fmt.Sprintf("ml 2 %d %s", out, hexF(m2.LowerBound(out))))
+					emit(fmt.Sprintf("ml %d %d %s", mh2, out, hexF(m2.LowerBound(out))))
 					if !(m2.LowerBound(out) < inHigh) {
 						break
 					}
-					emit(fmt.Sprintf("ml 2 %d %s", out+1, hexF(m2.LowerBound(out+1))))
+					emit(fmt.Sprintf("ml %d %d %s", mh2, out+1, hexF(m2.LowerBound(out+1))))
 					out++
 				}
 				return false
@@ -100,6 +105,6 @@ func (g *Gen) genChangeMappingHistory() {
 		sg.line("xpanic 1 chmap")
 		return
 	}
-	sg.line("chmap 1 2 %s %s %s", hexF(scale), pos, neg)
+	sg.line("chmap 1 %d %s %s %s", mh2, hexF(scale), pos, neg)
 	sg.obs(1)
 }
